@@ -25,6 +25,25 @@ HOWS = ["deepcopy", "p2", "p3", "p4", "p5", "fresh"]
 
 def generate(rnd, tier, index=0):
     regime = rnd.choice(["exact", "float"])
+    if rnd.random() < 0.1:
+        # the caller keeps ONE arm-feature dictionary and corrects vectors in place between two warm_start calls; the copy
+        # is taken between the two calls (an object outside the bandit cannot keep its identity across a copy)
+        lp = gen.gen_lp(rnd, names=("EpsilonGreedy", "UCB1", "Softmax", "ThompsonSampling", "LinUCB", "LinGreedy"))
+        cfg, spare = gen.gen_cfg(rnd, lp=lp, with_np=False, arms_lo=3, arms_hi=5)
+        cfg["reuse_feats"] = True
+        d = rnd.randint(1, 2)
+        rk = gen.reward_kind_for(rnd, cfg, "exact")
+        cold = set(rnd.sample(list(cfg["arms"]), rnd.randint(1, len(cfg["arms"]) - 2)))
+        rows = gen.gen_rows(rnd, cfg["arms"], rnd.randint(6, 16), d, "exact", rk, is_contextual(cfg), omit=cold)
+        dim = rnd.randint(2, 3)
+        w1 = gen.gen_warm(rnd, cfg["arms"], dim=dim)
+        w1["q"] = rnd.choice([0.0, 0.0, 0.25])
+        w2 = gen.gen_warm(rnd, cfg["arms"], dim=dim)
+        w2["q"] = 1.0
+        w1["copy"], w1["span"] = rnd.choice(HOWS + ["fresh"]), 3
+        Q = gen.gen_Q(rnd, 2, d, "exact") if is_contextual(cfg) else None
+        return {"cfg": cfg, "regime": "exact", "ops": [{"op": "fit", "rows": rows}, w1, w2, {"op": "expect", "Q": Q},
+                                                       {"op": "predict", "Q": Q}]}
     cfg, spare = gen.gen_cfg(rnd, with_np=rnd.random() < 0.7, binarizer=rnd.random() < 0.5, allow_probs=False, scale=True)
     cfg["n_jobs"] = rnd.choice([1, 1, 2, 3])
     d = rnd.randint(1, 3)
